@@ -24,7 +24,7 @@ COQ_TARGETS = ["Props/C02.vo", "Model/C02Harness.vo", "Model/Harness.vo"]
 THEOREM_FILES = ["Props/C02.v"]
 COQ_IMPORTS = ("From Coq Require Import List ZArith Bool Arith QArith Qcanon.\n"
                "From PV Require Import Base.Index Base.Perm Base.Sum Np.Array Model.Sparse Model.Repr Model.Harness "
-               "Np.NpZ Np.NpZ2 Gen.GenUtils Gen.GenUtils2 Model.C02TenmatReq Model.C02Spec Model.C02Dense Model.C02Sparse Model.C02Modes Model.C02Kruskal Model.C02SpKernels Model.C02Absorb Model.C02Tenmat Model.C02SpMore Model.C02KruskalMore Model.C02Tucker Model.C02TuckerFull Model.C02Harness.\n")
+               "Np.NpZ Np.NpZ2 Gen.GenUtils Gen.GenUtils2 Model.C02TenmatReq Model.C02DimsReq Model.C02Spec Model.C02Dense Model.C02Sparse Model.C02Modes Model.C02Kruskal Model.C02SpKernels Model.C02Absorb Model.C02Tenmat Model.C02SpMore Model.C02KruskalMore Model.C02Tucker Model.C02TuckerFull Model.C02Harness.\n")
 RULE = ("mttkrp/mttkrps additionally on 4-, 5- and 6-way tensors (<= ~200 entries) with skewed and balanced shapes so that every "
         "split index of min_split and Khatri-Rao products of >= 2 matrices occur in each helper; dims orders include cyclic "
         "(non-involutive) ones; otherwise shapes with <= 4 modes / <= 72 entries incl. distinct sizes (2,3,4), singleton modes and 1-way; every non-empty mode "
@@ -43,8 +43,8 @@ EXPLANATION = ("Correspondence compares pyttb's raw result with spec_op applied 
                "ttm, collapse, contract, scale, mask and mttkrp, Kruskal ttv (any mode set) and mttkrp, Tucker ttm / ttv / mttkrp, linearity over sums.")
 CORRESPONDENCE_ONLY = [
     "dense mttkrps (algorithm with min_split / mttv_left / mttv_mid: no algorithm model; compared entry-wise with spec_mttkrp for every mode on 4-, 5-, 6-way tensors covering every split index)",
-    "dense ttsv (spec only); tt_dimscheck inside collapse / scale / contract (their models take the sorted modes; ttt and to_tenmat are tied to the GENERATED gather_wrap_dims)",
-    "sparse ttm in list form beyond the first sorted mode (the first mode is the proved coordinate-list model, its dense result goes through the proved tensor.ttm), "
+    "dense ttsv (spec only); the sparse / Kruskal / Tucker kernels take the modes already sorted by tt_dimscheck (only the dense ttv / ttm / collapse / scale / ttt "
+    "are stated over the GENERATED tt_dimscheck / gather_wrap_dims); invariance of spec_collapse / spec_scale under the order of dims is not proved",
     "the choice of the result container (scalar / ndarray / tensor / sptensor and the 50% switch of sptensor.ttv / contract: evaluated in Coq on the expected array, no theorem), "
     "sptensor.collapse with a reducer other than sum",
     "Kruskal mask; Kruskal innerprod with a dense / sparse / Tucker operand is proved at the level of the arrays (C02_innerprod_kruskal_any: the weighted sum of "
@@ -407,6 +407,23 @@ def gen_cases(rng, tier):
                 cases.append(Case("mttkrp", {"X": Xd, "n": n, "U": U}, True))
                 if big or rng.random() < 0.5:
                     cases.append(Case("mttkrp", {"X": Xs, "n": n, "U": U}, any(fdata)))
+    # ---- mixed dtypes, dedicated: a dense operand of order 3 / 4, every mode n, the INTEGER-typed factor at the lowest resp. highest
+    #      position among the factors that enter the Khatri-Rao product, all other factors float64 with half-integer entries
+    for shp in ([2, 3, 2], [3, 2, 2, 2]):
+        N = len(shp)
+        Xd = X_dense(shp, tgen.rand_dense(rng, shp, 0.9))
+        for n in range(N):
+            others = [m for m in range(N) if m != n]
+            for ipos in (others[0], others[-1]):
+                R = 2
+                U = {"factors": [[[2 * x + 1 for x in row] for row in rand_matrix(rng, d, R)] for d in shp], "weights": None}
+                U["factors"][ipos] = rand_matrix(rng, shp[ipos], R, 1, 3)
+                U["dt"] = [["int", 0] if m == ipos else ["f64", 1] for m in range(N)]
+                cases.append(Case("mttkrp", {"X": Xd, "n": n, "U": U}, True))
+        U = {"factors": [[[2 * x + 1 for x in row] for row in rand_matrix(rng, d, 2)] for d in shp], "weights": None}
+        U["factors"][0] = rand_matrix(rng, shp[0], 2, 1, 3)
+        U["dt"] = [["int", 0]] + [["f64", 1]] * (N - 1)
+        cases.append(Case("mttkrps", {"X": Xd, "U": U}, True))
     # ---- ttt: outer and contracted products of two dense tensors
     pairs = [([2, 3], [3, 2]), ([2], [3]), ([3, 2], [2, 3, 2]), ([2, 3, 2], [2, 2, 3]), ([2, 3], [2, 3]), ([3], [3]), ([2, 1], [1, 3])]
     if big:
@@ -760,6 +777,8 @@ def coq_check(c, o):
         e = gmatch(rs, f, ob) + gkind(c, ob, rs, f)
         if X["rep"] == "dense" and ob["k"] in ("dense", "scalar") and obs_ints(ob):     # transliteration of tensor.collapse (Model/C02Tenmat.v)
             e += f" && dense_eqb (zimpl_collapse_dense {tgen.gdense(X['shape'], X['data'])} {gnlist(sorted(dims))}) {_dlit(ob)}"
+            # the call as written (dims in the caller's order, or None), resolved by the GENERATED tt_dimscheck (Model/C02DimsReq.v)
+            e += f" && zres_is (zimpl_collapse_req {tgen.gdense(X['shape'], X['data'])} {gopt(a['dims'], gzlist)}) {_dlit(ob)}"
         if X["rep"] == "sparse":
             e += " && " + gmatch(rs, f"(zimpl_collapse_sp {tgen.gsparse(X['shape'], X['subs'], X['vals'])} {gnlist(sorted(dims))})", ob)
         return e
@@ -778,6 +797,8 @@ def coq_check(c, o):
         e = gmatch(shp, f"(zsp_scale {dX} {gnlist(sd)} {g})", ob) + gkind(c, ob, None, None)
         if X["rep"] == "dense" and ob["k"] == "dense" and obs_ints(ob):
             e += (f" && dense_eqb (zimpl_scale_dense {tgen.gdense(X['shape'], X['data'])} {gnlist(sd)} "
+                  f"{tgen.gdense(a['fshape'], a['fdata'])}) {_dlit(ob)}")
+            e += (f" && zres_is (zimpl_scale_req {tgen.gdense(X['shape'], X['data'])} {gzlist(a['dims'])} "
                   f"{tgen.gdense(a['fshape'], a['fdata'])}) {_dlit(ob)}")
         if X["rep"] == "sparse" and ob["k"] == "sparse" and obs_ints(ob):
             # stored lists of the result: the operand's stored order, annihilated entries dropped (raw comparison unless the operand
